@@ -22,11 +22,12 @@ What is proved here (kernel-checked, no bound on sizes, histories, runes, colour
   (1) `CfgB.fx : CapsFx c rc` — the effect on the emulator of the bytes rendered for each command kind.  For the class
       `XtermLike` the following parts are proved (`Lemmas/LayerBXterm.lean`, `Lemmas/LayerBCaps.lean`): cursor addressing
       for all positions (`xl_goto_effect`), cursor hiding (`xl_hide_effect`), attribute reset in all seven forms
-      (`xl_attrOff_effect`), every single attribute / underline-style / colour-reset / hyperlink-off string
+      (`xl_attrOff_effect`), **the whole style block** for every style without colours / underline / hyperlink and any
+      combination of bold, blink, reverse, dim, italic, strike-through (`xl_setPen_attrs_effect`: pen = `penOf rc s`
+      exactly, i.e. `CapsFx.pen` restricted to such styles), every single attribute / underline-style / colour-reset / hyperlink-off string
       (`bold_effect` … `urlClose_effect`), and the closed forms of every parameterised expansion for all parameter values
       (`parm_cup`, `parm_setaf256`, `parm_setab256`, `parm_setfgbg256`, `parm_setfRGB`, … ) which the emulator lemmas
-      `sgr_fg_256_effect`, `sgr_*_rgb_effect`, … consume.  NOT yet assembled into the whole-`setPen` / `showCursor` /
-      `clear` effects: that composition is validated on every run by the correspondence + reference emulator.
+      `sgr_fg_256_effect`, `sgr_*_rgb_effect`, … consume.  NOT yet assembled: colours and underline inside `setPen`, `showCursor`, `clear`: that composition is validated on every run by the correspondence + reference emulator.
   (2) hyperlinks (`Style.url ≠ ""`), cursor-colour requests, the four corner-trick entries and terminals without a
       hide-cursor string are outside the domain (`OpB`, `CfgB`).
   (3) the bytes written by Init (engage) are not modelled here: the emulator state `e0` at the start is any state with
